@@ -456,13 +456,31 @@ func c05Listener(c *Ctx, driver *Func, dialogueCall, walkCall *ast.CallExpr) {
 		if !ok {
 			return true
 		}
-		mentions := false
-		ast.Inspect(b, func(q ast.Node) bool {
-			if id, ok := q.(*ast.Ident); ok && listenerVar != nil && info.Uses[id] == listenerVar {
-				mentions = true
-			}
-			return true
-		})
+		// through locals assigned once (errs := listener.errs; if len(errs) != 0 …)
+		dx := w.expander(driver)
+		var mentionsVar func(e ast.Node, depth int) bool
+		mentionsVar = func(e ast.Node, depth int) bool {
+			found := false
+			ast.Inspect(e, func(q ast.Node) bool {
+				id, ok := q.(*ast.Ident)
+				if !ok || listenerVar == nil || found {
+					return !found
+				}
+				obj := info.Uses[id]
+				if obj == listenerVar {
+					found = true
+					return false
+				}
+				if v, isVar := obj.(*types.Var); isVar && depth < 4 && !v.IsField() {
+					if rhs, _, _, ok := dx.def(v); ok && rhs != nil && mentionsVar(rhs, depth+1) {
+						found = true
+					}
+				}
+				return !found
+			})
+			return found
+		}
+		mentions := mentionsVar(b, 0)
 		if mentions && test == nil && (b.Op == token.NEQ || b.Op == token.EQL || b.Op == token.GTR) {
 			if _, isLogical := map[token.Token]bool{token.LAND: true, token.LOR: true}[b.Op]; !isLogical {
 				test = b
